@@ -372,6 +372,7 @@ func (lex *Lexer) Lex() *token.Token {
 		lex.te = (lex.p)
 		(lex.p)--
 		{
+			lex.ungetCnt(2)
 			lex.setTokenPosition(tkn)
 			tok = token.T_STRING
 			{
